@@ -82,7 +82,12 @@ def execute(ctx, it, params):
         show_added = '--no-added-binaries' not in it['wl']['options']
         if m['removed'] and not (o.exit & 4 and o.exit & 8):
             verdict, key = ('verdict-mismatch', 'binaries %s of the first package are missing from the second, but the exit status is %d (change and incompatible-change bits expected)' % (m['removed'], o.exit)), 'verdict-mismatch:removed-binary'
-        elif o.exit != m['status']:
+        elif m['errors'] and ((o.exit & 12) != (m['status'] & 12) or o.exit == 0):
+            # a pair whose comparison ends with an error (--fail-no-dbg, no debug info): C30 fixes the change bits (those of the
+            # other pairs and of the removed binaries) and forbids exit 0; which error bits are set is C08's business
+            verdict, key = ('verdict-mismatch', 'exit status %d, but the change bits of the pairs that can be compared (abidiff) %s removed-binary bits are %d and the pairs %s end with an error' % (
+                o.exit, 'plus' if m['removed'] else 'without', m['status'] & 12, m['errors'])), 'verdict-mismatch:pair-status'
+        elif not m['errors'] and o.exit != m['status']:
             verdict, key = ('verdict-mismatch', 'exit status %d, but OR of abidiff on the matched pairs %s removed-binary bits is %d' % (o.exit, 'plus' if m['removed'] else 'without', m['status'])), 'verdict-mismatch:pair-status'
         elif rep['sections'] != m['sections'] or rep['section_ends'] != m['sections']:
             verdict, key = ('verdict-mismatch', '"changes of" sections %s, expected %s (pairs whose abidiff status has the change bit)' % (rep['sections'], m['sections'])), 'verdict-mismatch:section-presence'
